@@ -47,3 +47,12 @@ package types
 //@   at return: assert binary-comes-back-as-bytes: result == nil && localor("value", nil) != nil && isT(value, string) && (columnType == -2 || columnType == -3 || columnType == -4) ==> isT(c.Value, []byte)
 //@   at return: assert numbers-stay-numbers: result == nil && localor("value", nil) != nil && (columnType == -6 || columnType == 7) ==> isT(c.Value, int8) || isT(c.Value, int16) || isT(c.Value, int32) || isT(c.Value, int64) || isT(c.Value, float32) || isT(c.Value, float64)
 //@   nopanic
+
+// C02: "no image has rows" (the test FlushUndoLog uses to skip writing an undo log). i stands for an
+// arbitrary index.
+//@ func (RecordImages).IsEmptyImage
+//@   prop C02
+//@   let i := some(int, "i")
+//@   loop 1 invariant index: rangeindex1 >= -1
+//@   loop 1 invariant none-so-far: 0 <= i && i <= rangeindex1 && i < len(rs) && rs[i] != nil ==> len(rs[i].Rows) == 0
+//@   ensures empty-means-no-image-has-rows: result && 0 <= i && i < len(rs) && rs[i] != nil ==> len(rs[i].Rows) == 0
